@@ -295,6 +295,7 @@ public:
         __TBB_ASSERT( m_result.ref_count.load() == static_cast<unsigned int>((m_result.m_left!=nullptr)+(m_result.m_right!=nullptr)), nullptr );
         if( m_result.m_left )
             m_result.m_left_is_final = false;
+        __TBB_VERIF_POINT(vp_scan_finish, this, 0);
         final_sum_type* right_zombie = m_right_zombie.load(std::memory_order_acquire);
         if( right_zombie && m_sum_slot )
             (*m_sum_slot)->reverse_join(*m_result.m_left_sum);
@@ -457,6 +458,7 @@ task* start_scan<Range,Body,Partitioner>::execute( execution_data& ed ) {
     // know that task assigning to m_parent->result.left_sum has completed.
     __TBB_ASSERT(!m_is_right_child || m_parent, "right child is never an orphan");
     bool treat_as_stolen = m_is_right_child && (is_stolen(ed) || &m_body.get()!=m_parent->m_result.m_left_sum);
+    __TBB_VERIF_POINT(vp_scan_stolen, this, treat_as_stolen);
     if( treat_as_stolen ) {
         // Invocation is for right child that has been really stolen or needs to be virtually stolen
         small_object_allocator alloc{};
